@@ -10,6 +10,8 @@ through wrappers with assumed contracts over the byte-offset model of spec/strmo
 `x.as_ptr() as usize - y.as_ptr() as usize` read as suffix_offset(y, x) whose precondition - x is
 a suffix of y - is a proof obligation; `for c in iter.by_ref()` desugared; `Chars::next` through a
 wrapper that adds a termination measure)."""
+import re
+
 from vf.unit import Unit
 from . import common, strrules
 
@@ -98,6 +100,17 @@ def build(repo):
     LN = ("impl<'a> Iterator for LinkFormatParser<'a>", 'next')
     AN = ("impl<'a> Iterator for LinkAttributeParser<'a>", 'next')
     for F in (LN, AN):
+        # R35a: a temporary holding one side of a pointer difference is inlined first
+        for _ in range(3):
+            s_, p_, bo_, bc_ = u._fn_span(F)
+            body = u.text[bo_:bc_]
+            tm = re.search(r'let (\w+)(?:\s*:\s*usize)? = ((?:\w+(?:\.\w+)*(?:\(\))?)(?:\.as_str\(\))?\.as_ptr\(\) as usize);\s*', body)
+            if not tm:
+                break
+            rest = body[:tm.start()] + body[tm.end():]
+            rest = re.sub(r'(?<![\w.])' + re.escape(tm.group(1)) + r'(?!\w)', tm.group(2), rest)
+            u.text = u.text[:bo_] + rest + u.text[bc_:]
+            u.rule_hits.append(('R35a:inline-pointer-temp@' + u.fnkey(F), 1))
         u.replace_in(F, 'R36:chars-next', r'iter\.next\(\)', 'chars_next(&mut iter)', (1, 9))
         u.replace_in(F, 'R35:pointer-difference', r'iter\.as_str\(\)\.as_ptr\(\) as usize\s*-\s*([\w.]+)\.as_ptr\(\) as usize', r'suffix_offset(\1, iter.as_str())', (1, 3))
         strrules.apply(u, F)
